@@ -30,8 +30,8 @@ DEFECTS = ("kindless", "all", "rfilter", "bareident", "insnchk")
 
 TIERS = {
     # E: exhaustive constants;  sim: traces per worker; n: sessions replayed
-    "quick": dict(E_maxreq=3, sim=30, sim_focus=30, sim_workers=8, n=120, jobs=6, tlc_workers=8, replay_s=75, min_sessions=12),
-    "thorough": dict(E_maxreq=5, sim=300, sim_focus=200, sim_workers=8, n=2500, jobs=8, tlc_workers=8, replay_s=720,
+    "quick": dict(E_runs=[("small", 3)], sim=30, sim_focus=30, sim_workers=8, n=120, jobs=6, tlc_workers=8, replay_s=75, min_sessions=12),
+    "thorough": dict(E_runs=[("small", 4), ("focus", 5)], sim=200, sim_focus=150, sim_workers=8, n=2500, jobs=8, tlc_workers=8, replay_s=600,
                      min_sessions=300),
 }
 
@@ -232,8 +232,9 @@ def judge(beh, out, pup):
             info["muted_steps"] += 1
         if not same(real, ref, muted):
             cls, what = classify(real, ref, keys)
-            single = sorted(c for c in matching if c != "asw")
-            cause = "+".join(single) if single else ("combination" if "asw" in matching else "unexplained")
+            names = {c[:-2] if c.endswith("_b") else c for c in matching}     # *_b: the other views[0] order
+            single = sorted(c for c in names if c != "asw")
+            cause = "+".join(single) if single else ("combination" if "asw" in names else "unexplained")
             info["explained_by"] = cause
             rec = {"cls": cls, "action": e["cmd"], "step": i, "what": what, "expected": ref, "actual": real,
                    "cause": cause, "script": script[:i + 1]}
@@ -251,7 +252,7 @@ def judge(beh, out, pup):
         return ({"cls": "program_output_changed", "action": "end", "step": len(beh), "expected": "acc=222",
                  "actual": out["stdout"], "cause": "unexplained", "script": script}, info)
     # the real run followed the reference: does the as-written model still describe the code?
-    if "asw" not in alive:
+    if "asw" not in alive and "asw_b" not in alive:
         info["drift"] = "real session conforms to the reference where the as-written model predicts a divergence"
     return None, info
 
@@ -365,31 +366,44 @@ def run(rep, tier, replay):
                                              "replay_of": str(replay), "info": info})
 
     # ---- 1. exhaustive model checking -------------------------------------------------------------
-    cfgE = write_cfg(f"E_{tier}_{os.getpid()}.cfg", "DapBp_E.cfg", MaxReq=T["E_maxreq"])
-    rE = vlib.tlc("DapBpMC", cfgE, workers=T["tlc_workers"], coverage=(tier == "thorough"),
-                  timeout=1500 if tier == "thorough" else 420, heap="6g", name=f"c13E-{tier}")
-    vlib.tlc_expect_ok(rE, "DapBp exhaustive (repaired design vs reference)")
-    if rE.violated:
-        raise vlib.ToolError(f"the repaired design violates {rE.violated}: reference and model are inconsistent\n"
-                             + rE.out[-2500:])
-    if tier == "thorough":
-        vac = [a for a in ("ASetBreakpoints", "ASetFunctionBreakpoints", "ASetInstructionBreakpoints",
-                            "ASetDataBreakpoints", "AConfigurationDone", "AContinue", "ARestart")
-               if rE.coverage.get(a, (0, 0))[1] == 0]
-        if vac:
-            raise vlib.ToolError(f"vacuous TLC run: actions never taken: {vac}")
-    vlib.log(f"[tlc] E {rE.distinct} states {rE.generated} transitions depth {rE.depth} {rE.wall:.0f}s")
+    # quick: every interleaving of <= 3 requests over the small alphabet; thorough: <= 4 over the small
+    # alphabet and <= 5 over the focus alphabet (<= 5 over the small alphabet is 63.5 M transitions: run by hand,
+    # see design/C13.md), both with coverage
+    runs = T["E_runs"]
+    e_results = []
+    for alpha, maxreq in runs:
+        cfgE = write_cfg(f"E_{tier}_{alpha}_{os.getpid()}.cfg", "DapBp_E.cfg", MaxReq=maxreq, Alphabet=f'"{alpha}"')
+        r1 = vlib.tlc("DapBpMC", cfgE, workers=T["tlc_workers"], coverage=(tier == "thorough"),
+                      timeout=900 if tier == "thorough" else 420, heap="6g", name=f"c13E-{tier}-{alpha}")
+        os.unlink(cfgE)
+        vlib.tlc_expect_ok(r1, f"DapBp exhaustive (repaired design vs reference, {alpha}/{maxreq})")
+        if r1.violated:
+            raise vlib.ToolError(f"the repaired design violates {r1.violated} ({alpha}/{maxreq}): reference and model "
+                                 "are inconsistent\n" + r1.out[-2500:])
+        if tier == "thorough":
+            vac = [a for a in ("ASetBreakpoints", "ASetFunctionBreakpoints", "ASetInstructionBreakpoints",
+                               "ASetDataBreakpoints", "AConfigurationDone", "AContinue", "ARestart")
+                   if r1.coverage.get(a, (0, 0))[1] == 0 and not (a == "ASetDataBreakpoints" and alpha == "focus")]
+            if vac:
+                raise vlib.ToolError(f"vacuous TLC run ({alpha}/{maxreq}): actions never taken: {vac}")
+        vlib.log(f"[tlc] E {alpha}/MaxReq={maxreq}: {r1.distinct} states {r1.generated} transitions depth {r1.depth} "
+                 f"{r1.wall:.0f}s")
+        e_results.append({"alphabet": alpha, "MaxReq": maxreq, "states": r1.distinct, "transitions": r1.generated,
+                          "depth": r1.depth, "wall_s": round(r1.wall)})
+    rE = vlib.TlcResult()
+    rE.distinct = sum(e["states"] for e in e_results)
+    rE.generated = sum(e["transitions"] for e in e_results)
+    rE.depth = max(e["depth"] for e in e_results)
     asw_violates = []
     invs = ("InstalledEqualsLatest", "VerifiedIffInstalled", "StopsExactlyAtLatest", "OptionsHonouredWheneverSet")
     # quick: one run with all four (TLC reports the first violated); thorough: one run per invariant
     for inv in (invs if tier == "thorough" else (" ".join(invs),)):
-        cfgW = write_cfg(f"W_{abs(hash(inv))}_{os.getpid()}.cfg", "DapBp_W.cfg", MaxReq=T["E_maxreq"], INVARIANTS=inv)
+        cfgW = write_cfg(f"W_{abs(hash(inv))}_{os.getpid()}.cfg", "DapBp_W.cfg", MaxReq=T["E_runs"][0][1], INVARIANTS=inv)
         rW = vlib.tlc("DapBpMC", cfgW, workers=2, timeout=120, heap="2g", name=f"c13W-{os.getpid()}")
         vlib.tlc_expect_ok(rW, f"DapBp as written / {inv}")
         if rW.violated:
             asw_violates.append(rW.violated)
         os.unlink(cfgW)
-    os.unlink(cfgE)
     vlib.log(f"[tlc] as-written model violates: {asw_violates}")
 
     # ---- 2. behaviour generation ------------------------------------------------------------------
@@ -509,7 +523,8 @@ def run(rep, tier, replay):
     return rep.finish("model_checking", {
         "states": rE.distinct, "transitions": rE.generated, "depth": rE.depth,
         "exhaustive": True,
-        "constants": {"MaxReq": T["E_maxreq"], "Lines": 3, "Exec": "P G G' L L L F I", "alphabet": "small"},
+        "exhaustive_runs": e_results,
+        "constants": {"Lines": 3, "Exec": "P G G' L L L F I", "generation_MaxReq": 6},
         "as_written_model_violates": asw_violates,
         "behaviours_generated": len(raw), "behaviours_distinct": len(behs),
         "traces_validated_against_impl": len(done) - skipped, "sessions_selected": len(chosen),
